@@ -40,12 +40,15 @@ CONFIG = dict(
                  "message contents, dates, LIST/STATUS/CREATE/DELETE/RENAME are outside (C09)"],
     leanchecker=True,
     shrink={"hist": (4, ";")},
-    level_text="proof: theorems about the mirrored multi-connection backend (GoImap.Views over GoImap.Tracker): the numbers "
-               "each command sends are EncodeSeqNum of server positions, polls after non-UID FETCH/STORE/SEARCH carry no "
-               "EXPUNGE, and by C07's invariant every number lies within the announced view, the count shrinks only by "
-               "EXPUNGE and NOOP leaves the announced view equal to the mailbox; the mirror is tied to the real server "
-               "and backend on every run and the property's four clauses are evaluated on the implementation's own event "
-               "streams by a ghost announced view rebuilt from the wire only; partial: '*' under a stale view follows the code",
+    level_text="proof: for ALL histories over the mirrored multi-connection backend (GoImap.Views over GoImap.Tracker, any "
+               "number of mailboxes and connections) the oracle never fails and the model never panics (oracle_accepts, "
+               "no_panic); every sequence number sent lies within the view announced at that moment (in_range), no EXPUNGE "
+               "while answering a non-UID FETCH/STORE/SEARCH (no_expunge_in), the count shrinks only by EXPUNGE, by one "
+               "(shrink_only_by_expunge), labels never repeat (each_removed_once), after NOOP the announced view has the "
+               "mailbox's length and every label is the UID at that position (noop_sync) - all corollaries of a global "
+               "invariant built on C07's Inv/encode_spec/poll theorems; the mirror is tied to the real server and backend "
+               "on every run and the same four clauses are evaluated on the implementation's own event streams by a ghost "
+               "announced view rebuilt from the wire only; partial: '*' under a stale view follows the code",
     level_note="Trusted: Lean kernel; harness/driver/tokenizer. The theorem list with its status (proved / validated by the "
                "oracle only) is at the top of lean/GoImap/Props/C08.lean.",
 )
